@@ -405,3 +405,54 @@ where
         f()
     }
 }
+
+// verification hooks (C08, add-only, feature gated): the private norm caches.
+#[cfg(feature = "verif-hooks")]
+impl<T: FloatT> DefaultProblemData<T> {
+    /// `(normq, normb)` caches as stored
+    pub fn verif_c08_norm_caches(&self) -> (Option<T>, Option<T>) {
+        (self.normq, self.normb)
+    }
+    /// call-through to the crate-private `get_normq` (fills the cache)
+    pub fn verif_c08_get_normq(&mut self) -> T {
+        self.get_normq()
+    }
+    /// call-through to the crate-private `get_normb` (fills the cache)
+    pub fn verif_c08_get_normb(&mut self) -> T {
+        self.get_normb()
+    }
+}
+
+// Add-only access for the external verification harness (/verif, properties C01-C03).
+#[cfg(feature = "verif-hooks")]
+#[allow(missing_docs)]
+pub mod verif_problemdata {
+    use super::*;
+
+    /// the cached unscaled inf-norms `(normq, normb)` of the linear terms
+    pub fn norms<T: FloatT>(data: &DefaultProblemData<T>) -> (Option<T>, Option<T>) {
+        (data.normq, data.normb)
+    }
+    /// overwrite the cached norms (`None` = recompute on next use)
+    pub fn set_norms<T: FloatT>(data: &mut DefaultProblemData<T>, normq: Option<T>, normb: Option<T>) {
+        data.normq = normq;
+        data.normb = normb;
+    }
+    pub fn get_normq<T: FloatT>(data: &mut DefaultProblemData<T>) -> T {
+        data.get_normq()
+    }
+    pub fn get_normb<T: FloatT>(data: &mut DefaultProblemData<T>) -> T {
+        data.get_normb()
+    }
+    /// presolver row map: `(keep_logical, infbound)` when rows were removed
+    pub fn presolve_map<T: FloatT>(data: &DefaultProblemData<T>) -> Option<(Vec<bool>, f64)> {
+        data.presolver.as_ref().and_then(|p| {
+            p.reduce_map
+                .as_ref()
+                .map(|m| (m.keep_logical.clone(), p.infbound))
+        })
+    }
+    pub fn is_chordal_decomposed<T: FloatT>(data: &DefaultProblemData<T>) -> bool {
+        data.is_chordal_decomposed()
+    }
+}
